@@ -118,7 +118,7 @@ pub struct Sampled {
 pub fn sampled_profile(base: &Profile) -> Profile {
     let mut p = base.clone();
     p.p_teleport = p.p_teleport.max(1);
-    p.net_w = [10, 5, 45, 40, 0, 0, 0, 0, 0];
+    p.net_w = [8, 5, 40, 35, 3, 3, 2, 2, 2];
     p.max_steps = p.max_steps.min(10);
     p.warp = false;
     p.start_past_legacy = false;
